@@ -58,6 +58,7 @@ def gen(rng, tier):
     w['fire'] = rng.choice([0, 0, 3, 12])
     prof.top_timeouts = rng.choice([2, 2, 8])
     w['succeed'] = rng.choice([0, 2, 3])
+    w['newenv'] = rng.choice([0, 0, 0, 1])
     w['addcb'] = rng.choice([0, 0, 1, 2])      # plain callbacks and event chaining (dst.trigger as a callback of src)
     prof.handlers = ['cont', 'cont', 'rewait', 'ret', 'other', 'raise', 'none']
     if rng.random() < 0.15:
